@@ -13,6 +13,15 @@
 // and on DisjointSet: dom / par / root / dat views, `wf` = both vector maps well-formed, forest,
 // data only at roots.  The partition of the naive model is "i ~ j  iff  root(i) == root(j)";
 // the accumulated data of a class is `dat(root)`.
+//
+// Proof anchors: structural only (`entry` / `exit`) except ONE statement anchor in `union`
+// (after `self.find(v2);`, to name the state both roots live in). `find` is proved from a hint at
+// entry alone: the quantified lemmas `lemma_*_forall` talk about all intermediate `reps` states and
+// are instantiated by the ground `VectorMap::wf()` facts of the callee contracts. Hints are written
+// as `if <shape of the update> { lemma }`, never as assertions about what the code did, so an edit
+// that changes the update makes the labelled postconditions fail instead of a proof-internal assert.
+// Postconditions on roots carry two triggers (`final.root(i)`, `old.root(i)`) so that callers can
+// chain them in either direction without naming intermediate states.
 use vstd::prelude::*;
 use std::marker::PhantomData;
 use std::{fmt::Debug, hash::Hash};
@@ -226,6 +235,31 @@ proof fn lemma_compress_all<V: ToUniqueIndex>(a: VectorMap<V, V>, b: VectorMap<V
     assert forall|j: int| fdom(a, j) implies #[trigger] froot(b, j) == froot(a, j) by { lemma_compress(a, b, x, j, d); }
 }
 
+/// quantified forms (over the unnamed intermediate states of a function body), so that `find`
+/// needs a hint at function entry only. They are instantiated by the ground `VectorMap::wf()` facts
+/// that `VectorMap::insert`'s contract and the unfolding of `DisjointSet::wf` put in the context.
+proof fn lemma_add_singleton_forall<V: ToUniqueIndex>(a: VectorMap<V, V>, x: int)
+    requires forest(a), !fdom(a, x),
+    ensures forall|b: VectorMap<V, V>| #[trigger] b.wf() && par_upd(a, b, x, x) ==> forest(b) && froot(b, x) == x
+                && (forall|j: int| fdom(a, j) ==> #[trigger] froot(b, j) == froot(a, j)),
+{
+    assert forall|b: VectorMap<V, V>| #[trigger] b.wf() && par_upd(a, b, x, x) implies forest(b) && froot(b, x) == x
+                && (forall|j: int| fdom(a, j) ==> #[trigger] froot(b, j) == froot(a, j)) by {
+        lemma_add_singleton_all(a, b, x);
+    }
+}
+proof fn lemma_compress_forall<V: ToUniqueIndex>(x: int)
+    ensures forall|a: VectorMap<V, V>, b: VectorMap<V, V>| #![trigger a.wf(), b.wf()]
+                a.wf() && b.wf() && forest(a) && fdom(a, x) && par_upd(a, b, x, froot(a, x)) ==>
+                forest(b) && (forall|j: int| fdom(a, j) ==> #[trigger] froot(b, j) == froot(a, j)),
+{
+    assert forall|a: VectorMap<V, V>, b: VectorMap<V, V>| #![trigger a.wf(), b.wf()]
+                a.wf() && b.wf() && forest(a) && fdom(a, x) && par_upd(a, b, x, froot(a, x)) implies
+                forest(b) && (forall|j: int| fdom(a, j) ==> #[trigger] froot(b, j) == froot(a, j)) by {
+        lemma_compress_all(a, b, x);
+    }
+}
+
 /// linking root `rb` under a different root `ra`: exactly the members of rb's class move to ra
 proof fn lemma_link<V: ToUniqueIndex>(a: VectorMap<V, V>, b: VectorMap<V, V>, ra: int, rb: int, j: int, d: spec_fn(int) -> nat)
     requires forest(a), forest(b), franked(a, d), fdom(a, ra), fdom(a, rb), ra != rb,
@@ -385,26 +419,12 @@ proof fn lemma_link_all<V: ToUniqueIndex>(a: VectorMap<V, V>, b: VectorMap<V, V>
                 assert(franked(s0.reps, fwit(s0.reps)));
                 lemma_root_props(s0.reps, fwit(s0.reps), x);
                 assert(fdom(s0.reps, fpar(s0.reps, x).unwrap()));
+                lemma_compress_forall::<Value>(x);
+                assert(s0.par(x) != Some(x) ==> s0.root(x) == s0.root(s0.par(x).unwrap()));
+            } else {
+                lemma_add_singleton_forall(s0.reps, x);
             }
         }
-//@proof after "= self.find($1);"
-                let ghost s1 = *self;
-//@proof after "self.reps.insert($1);" #1
-                proof {
-                    let s2 = *self;
-                    if s1.dom(x) && par_upd(s1.reps, s2.reps, x, s1.root(x)) {
-                        lemma_compress_all(s1.reps, s2.reps, x);
-                        assert forall|j: int| s1.dom(j) implies #[trigger] s2.root(j) == s1.root(j) by {}
-                    }
-                }
-//@proof after "self.reps.insert($1);" #2
-            proof {
-                let s3 = *self;
-                if !s0.dom(x) && par_upd(s0.reps, s3.reps, x, x) {
-                    lemma_add_singleton_all(s0.reps, s3.reps, x);
-                    assert forall|j: int| s0.dom(j) implies #[trigger] s3.root(j) == s0.root(j) by {}
-                }
-            }
 //@end
 
 //@extract file=src/data/disjoint_set.rs path="impl<Value, Data> DisjointSet<Value, Data>#1|fn union"
@@ -414,10 +434,11 @@ proof fn lemma_link_all<V: ToUniqueIndex>(a: VectorMap<V, V>, b: VectorMap<V, V>
             final(self).wf(),                                                                                   //@ob C19.ds.union.wf
             forall|i: int| final(self).dom(i) == (old(self).dom(i) || i == v1.index_spec() || i == v2.index_spec()),   //@ob C19.ds.union.domain
             // both arguments end in one class, represented by the (possibly fresh) root of the first
+            final(self).same_set(v1.index_spec() as int, v2.index_spec() as int),                               //@ob C14.ds.union.declared_equal_same_class
             final(self).root(v1.index_spec() as int) == old(self).root_or_self(v1.index_spec() as int),         //@ob C14.ds.union.same_class C19.ds.union.root_is_first
             final(self).root(v2.index_spec() as int) == old(self).root_or_self(v1.index_spec() as int),         //@ob C14.ds.union.same_class C19.ds.union.second_joins_first
             // every member of the second class moves to the first root; every other element keeps its root
-            forall|i: int| old(self).dom(i) ==> #[trigger] final(self).root(i) ==
+            forall|i: int| #![trigger final(self).root(i)] #![trigger old(self).root(i)] old(self).dom(i) ==> final(self).root(i) ==
                 (if old(self).root(i) == old(self).root_or_self(v2.index_spec() as int) { old(self).root_or_self(v1.index_spec() as int) } else { old(self).root(i) }),   //@ob C19.ds.union.partition C14.ds.union.transitive
             // the merged class carries combine(first or identity, second or identity) exactly once; nothing else changes
             old(self).root_or_self(v1.index_spec() as int) != old(self).root_or_self(v2.index_spec() as int) ==>
@@ -461,6 +482,8 @@ proof fn lemma_link_all<V: ToUniqueIndex>(a: VectorMap<V, V>, b: VectorMap<V, V>
             final(self).root(value.index_spec() as int) == old(self).root_or_self(value.index_spec() as int),   //@ob C19.ds.add_data.singleton_when_absent
             forall|i: int| #[trigger] final(self).dat(i) == (if i == final(self).root(value.index_spec() as int) {
                     Some(old(self).dat_or_id(i).combine_spec(data)) } else { old(self).dat(i) }),               //@ob C19.ds.add_data.accumulates_at_root
+//@proof entry
+        proof { broadcast use axiom_data_clone; }
 //@end
 
 //@extract file=src/data/disjoint_set.rs path="impl<Value, Data> DisjointSet<Value, Data>#1|fn get_data"
@@ -473,8 +496,8 @@ proof fn lemma_link_all<V: ToUniqueIndex>(a: VectorMap<V, V>, b: VectorMap<V, V>
             forall|i: int| #![trigger final(self).root(i)] #![trigger old(self).root(i)] old(self).dom(i) ==> final(self).root(i) == old(self).root(i),            //@ob C19.ds.get_data.partition_unchanged
             final(self).root(value.index_spec() as int) == old(self).root_or_self(value.index_spec() as int),   //@ob C19.ds.get_data.singleton_when_absent
             forall|i: int| final(self).dat(i) == old(self).dat(i),                                              //@ob C19.ds.get_data.data_unchanged
-            match r { Some(d) => old(self).dat(final(self).root(value.index_spec() as int)) == Some(*d),
-                      None => old(self).dat(final(self).root(value.index_spec() as int)).is_none() },           //@ob C19.ds.get_data.returns_class_data
+            match r { Some(d) => final(self).dat(final(self).root(value.index_spec() as int)) == Some(*d),
+                      None => final(self).dat(final(self).root(value.index_spec() as int)).is_none() },           //@ob C19.ds.get_data.returns_class_data
 //@end
 
 //@extract file=src/data/disjoint_set.rs path="impl<Value, Data> DisjointSet<Value, Data>#1|fn set_data"
@@ -487,6 +510,43 @@ proof fn lemma_link_all<V: ToUniqueIndex>(a: VectorMap<V, V>, b: VectorMap<V, V>
             final(self).root(value.index_spec() as int) == old(self).root_or_self(value.index_spec() as int),   //@ob C19.ds.set_data.singleton_when_absent
             forall|i: int| #[trigger] final(self).dat(i) == (if i == final(self).root(value.index_spec() as int) { Some(data) } else { old(self).dat(i) }),   //@ob C19.ds.set_data.replaces_at_root
 //@end
+}
+
+// ---------------------------------------------------------------------------------------------
+// Contract adequacy (no repository code here): a caller that sees ONLY the contracts above can
+// derive the property-level statements — equalities declared pairwise put all three variables in
+// one class (C14, transitively), each datum is accounted exactly once (C19), joining inside a
+// class is a no-op, and a fourth variable stays apart. Also shows the contracts are satisfiable
+// on a non-trivial history (not vacuous).
+// ---------------------------------------------------------------------------------------------
+fn client_three_way_union<Value, Data>(a: &Value, b: &Value, c: &Value, e: Value, d1: Data, d2: Data)
+    where
+        Value: Clone + Debug + Eq + Hash + PartialEq + ToUniqueIndex,
+        Data: Combine + Debug + Eq + PartialEq,
+    requires
+        a.index_spec() != b.index_spec(), a.index_spec() != c.index_spec(), b.index_spec() != c.index_spec(),
+        e.index_spec() != a.index_spec(), e.index_spec() != b.index_spec(), e.index_spec() != c.index_spec(),
+{
+    let ghost (xa, xb, xc, xe) = (a.index_spec() as int, b.index_spec() as int, c.index_spec() as int, e.index_spec() as int);
+    let ghost id = Data::identity_spec();
+    let mut s = DisjointSet::<Value, Data>::new();
+    s.add_data(a, d1);
+    s.add_data(c, d2);
+    assert(s.root(xa) == xa && s.root(xc) == xc && !s.dom(xb));
+    s.union(a, b);
+    assert(s.root(xa) == xa && s.root(xb) == xa && s.root(xc) == xc);
+    s.union(b, c);
+    assert(s.same_set(xa, xb) && s.same_set(xb, xc) && s.same_set(xa, xc));                         //@ob C14.ds.client.transitive_same_class
+    assert(s.dat(s.root(xc)) == Some(id.combine_spec(d1).combine_spec(id).combine_spec(id.combine_spec(d2))));   //@ob C19.ds.client.each_datum_once
+    assert(s.dat(xb).is_none() && s.dat(xc).is_none());                                             //@ob C19.ds.client.data_only_at_root
+    let ghost before = s;
+    s.union(c, a);
+    assert(forall|i: int| s.dat(i) == before.dat(i));                                               //@ob C19.ds.client.rejoin_keeps_data
+    assert(s.root(xa) == before.root(xa) && s.root(xb) == before.root(xb) && s.root(xc) == before.root(xc));   //@ob C19.ds.client.rejoin_keeps_partition
+    s.insert(e);
+    assert(!s.same_set(xe, xa) && s.same_set(xa, xc));                                              //@ob C19.ds.client.fresh_element_is_apart
+    let r = s.find(c);
+    assert(r.index_spec() == xa);                                                                   //@ob C14.ds.client.resolves_to_common_root
 }
 
 //@dropped DisjointSet::{sets, values} (second impl block): iterator adapters with closures over VectorMap::iter/indices, outside Verus' subset; not under contract here (bounded partner Kb in DESIGN.md §6 C19)
